@@ -312,6 +312,26 @@ class BaseMDASolver(BaseMDA):
                         slice_
                     )
 
+    def _get_local_data_before_execution(self) -> dict[str, Any]:
+        """Return a copy of the local data to be compared with the next local data.
+
+        The values of the resolved variables are copied too
+        because a discipline may fill and return the same output array
+        at each execution;
+        a shallow copy would then follow the next execution
+        and the residuals would be equal to zero.
+
+        Returns:
+            The copy of the local data.
+        """
+        local_data = self.io.data.copy()
+        for name in self.__resolved_variable_names:
+            value = local_data.get(name)
+            if isinstance(value, ndarray):
+                local_data[name] = value.copy()
+
+        return local_data
+
     def _update_local_data_from_array(self, array_: ndarray) -> None:
         """Update the local data from an array.
 
